@@ -89,6 +89,11 @@ def obligations(tier):
                         continue
                     obs.append(dict(base, inp='list', ln=ln))
                 obs.append(dict(base, inp='named', _weight=8))
+                if cm in ('name', 'positional') and not ({VP, VK} & {k for k, _ in sig}) and (n <= 2 or tier != 'quick'):
+                    # the SAME function object also registered as a plain method (its 'ctx' an ordinary parameter there);
+                    # whichever registration is served first must not decide how the other binds
+                    obs.append(dict(base, inp='list', ln=n, twice=1))
+                    obs.append(dict(base, inp='named', twice=1, _weight=8))
                 if cm != 'none' and (n <= 1 or tier != 'quick'):
                     # the same with a FALSY context object ({}): it is still the context the method must receive
                     obs.append(dict(base, inp='list', ln=min(n, 1), ctxv='falsy'))
@@ -208,6 +213,31 @@ def h_bind(ob):
             d.add(ns['meth'], name='meth', context='ctx', positional=True)
         else:
             d.add(ns['meth'], name='meth')
+        plain_first = None
+        if ob.get('twice'):
+            d.add(ns['meth'], name='plain')
+            exec(f"def twin_all({_render(params)}):\n    return [{''.join(p[0] + ', ' for p in params)}]\n", ns)
+            npos = len([p for p in params if p[1] in (PO, PK)])
+            plain_vals = [100 + j for j in range(npos)]
+            try:
+                plain_want = ns['twin_all'](*plain_vals)
+            except TypeError:
+                plain_want = None
+
+            def plain_call():
+                n0 = len(log)
+                o = d.dispatch(wire.encode({'jsonrpc': '2.0', 'id': 0, 'method': 'plain', 'params': plain_vals}), CTX)
+                o = wire.decode((run_coro(o) if is_async else o)[0])
+                if plain_want is None:
+                    if 'error' not in o or o['error'].get('code') != -32602 or len(log) != n0:
+                        raise Violation('plain-registration:unbindable-call-not-32602', (src, plain_vals, o))
+                elif not same_json(o.get('result'), plain_want):
+                    raise Violation('plain-registration:args-differ', (src, plain_vals, o, plain_want))
+                del log[n0:]
+
+            plain_first = env.bool('plain_first')
+            if plain_first:
+                plain_call()
         # ---- input ---------------------------------------------------------------------------------
         if ob['inp'] == 'list':
             vals = [env.int(f'v{j}') for j in range(ob['ln'])]
@@ -241,6 +271,8 @@ def h_bind(ob):
                 raise Violation('unbindable-call-not-32602', (src, wire_params, rdoc))
             if log:
                 raise Violation('body-ran-on-unbindable-call', (src, wire_params))
+            if plain_first is False:
+                plain_call()
             return ['-32602']
         if 'error' in rdoc:
             raise Violation('bindable-call-refused:' + str(rdoc['error'].get('code')), (src, wire_params, rdoc))
@@ -268,6 +300,8 @@ def h_bind(ob):
         want_result = [(_plain(CTX) if name == ctx_name else _plain(e)) for e, (name, k, dflt) in zip(exp, params)]
         if not same_json(rdoc.get('result'), want_result):
             raise Violation('result-not-returned-unchanged', (src, rdoc, want_result))
+        if plain_first is False:
+            plain_call()
         return ['ok', len(got)]
 
     return run
